@@ -1,6 +1,7 @@
 """C12 — TPFA is symmetric, conservative, and exact on K-orthogonal grids (MPFA agreement outside)."""
 from __future__ import annotations
 
+import fractions
 import itertools
 
 import numpy as np
@@ -56,6 +57,12 @@ def shards(tier, seed):
     # periodic bottom/top boundary (deprecated but supported branch), heterogeneous diagonal K
     for bc in ([0, 0, 0, 0], [1, 1, 1, 1], [1, 0, 1, 0]):
         out.append({"topo": "cart2x2", "bc": bc, "k": "diag", "periodic": True})
+    # lower-dimensional grids embedded off-axis in 3-d (no "ambient_dimension" parameter), isotropic K:
+    # still K-orthogonal, so the exactness clause applies
+    for topo, nb, tilts in (("cart2x2", 8, ("x345", "y345")), ("line3", 2, ("z345", "y345"))):
+        for bc in ([1] * nb, [1, 0] * (nb // 2)):
+            for tilt in tilts:
+                out.append({"topo": topo, "bc": bc, "k": "iso", "tilt": tilt})
     return out
 
 
@@ -100,6 +107,35 @@ def _scale_geometry(g, sx, sy):
 
 _NX = {}
 
+_F = fractions.Fraction
+TILT = {
+    "x345": [[1, 0, 0], [0, _F(3, 5), _F(-4, 5)], [0, _F(4, 5), _F(3, 5)]],
+    "y345": [[_F(3, 5), 0, _F(4, 5)], [0, 1, 0], [_F(-4, 5), 0, _F(3, 5)]],
+    "z345": [[_F(3, 5), _F(-4, 5), 0], [_F(4, 5), _F(3, 5), 0], [0, 0, 1]],
+}
+
+
+def _rotate_geometry(g, R):
+    """Rotates the (symbolic) geometry fields of g by the exact rational rotation R."""
+    from ..sym import SReal, rv
+
+    def rot(a):
+        a = np.asarray(a, dtype=object)
+        out = np.empty(a.shape, dtype=object)
+        for j in range(a.shape[1]):
+            for i in range(3):
+                acc = 0
+                for k in range(3):
+                    if R[i][k] != 0:
+                        acc = acc + SReal(rv(R[i][k])) * a[k, j]
+                out[i, j] = acc
+        return out.view(SymArr)
+
+    g.nodes = rot(g.nodes)
+    g.face_centers = rot(g.face_centers)
+    g.cell_centers = rot(g.cell_centers)
+    g.face_normals = rot(g.face_normals)
+
 
 def _periodic_pairs(g):
     """Bottom (y = min) faces identified with the top (y = max) faces at the same x."""
@@ -135,8 +171,14 @@ def harness(ctx, shard):
     if symbolic_geometry:
         sx, sy = ctx.real("dx", 0.25, 4), (ctx.real("dy", 0.25, 4) if g.dim == 2 else 1)
         _scale_geometry(g, sx, sy)
+    tilt = shard.get("tilt")
+    if tilt:
+        _rotate_geometry(g, TILT[tilt])
     # permeability
-    if ktype == "const":
+    if ktype == "iso":
+        kxx = np.array([ctx.real("kxx", 0.125, 8)] * nc, dtype=object).view(SymArr)
+        kyy, kxy = kxx, None
+    elif ktype == "const":
         kxx = np.array([ctx.real("kxx", 0.125, 8)] * nc, dtype=object).view(SymArr)
         kyy = np.array([ctx.real("kyy", 0.125, 8)] * nc, dtype=object).view(SymArr)
         kxy = None
@@ -146,7 +188,7 @@ def harness(ctx, shard):
         if kxy is not None:
             for c in range(nc):
                 ctx.assume(lift(kxx[c]) * lift(kyy[c]) - lift(kxy[c]) * lift(kxy[c]) > 0)
-    if g.dim == 1:
+    if g.dim == 1 or ktype == "iso":
         K = pp.SecondOrderTensor(kxx)
     else:
         K = pp.SecondOrderTensor(kxx, kyy=kyy, kxy=kxy)
@@ -198,7 +240,7 @@ def harness(ctx, shard):
         tot = z3.Sum([lift(flux[f, c]) * lift(cst) for c in range(nc)]
                      + [lift(bflux[f, k]) * lift(pb[k]) for k in range(nf)])
         ctx.check("constant-pressure-zero-flux", tot == 0, case)
-    if ktype in ("diag", "const"):
+    if ktype in ("diag", "const", "iso"):
         for i in range(nc):
             has = any(div[i, f] != 0 and (f in internal or f in dir_faces) for f in range(nf))
             if has:
@@ -206,18 +248,24 @@ def harness(ctx, shard):
             for j in range(nc):
                 if i != j:
                     ctx.check("off-diagonal-non-positive", A[i, j] <= 0, case)
-    if ktype == "const" and symbolic_geometry:
+    if ktype in ("const", "iso") and symbolic_geometry:
         # linear pressure p = a.x + b: exact Darcy flux  F_f = -(K a) . n_f  on every face
         cc, fc, fn = g.cell_centers, g.face_centers, g.face_normals
-        ax = [a[0], a[1] if g.dim == 2 else 0]
-        p_c = [ax[0] * cc[0, c] + ax[1] * cc[1, c] + b0 for c in range(nc)]
-        Ka = [kxx[0] * ax[0], (kyy[0] if g.dim == 2 else kxx[0]) * ax[1]]
-        exact = [-(Ka[0] * fn[0, f] + Ka[1] * fn[1, f]) for f in range(nf)]
+        ax = [a[0], a[1] if g.dim == 2 else 0, 0]
+        Ka = [kxx[0] * ax[0], (kyy[0] if g.dim == 2 else kxx[0]) * ax[1], 0]
+        if tilt:
+            # gradient in the tilted plane / along the tilted line: R (a0, a1, 0); K isotropic
+            from ..sym import SReal, rv
+            R = TILT[tilt]
+            ax = [sum((SReal(rv(R[i][k])) * ax[k] for k in range(2) if R[i][k] != 0), 0) for i in range(3)]
+            Ka = [kxx[0] * ax[i] for i in range(3)]
+        p_c = [ax[0] * cc[0, c] + ax[1] * cc[1, c] + ax[2] * cc[2, c] + b0 for c in range(nc)]
+        exact = [-(Ka[0] * fn[0, f] + Ka[1] * fn[1, f] + Ka[2] * fn[2, f]) for f in range(nf)]
         sgn = {int(f): int(g.cell_faces[f].data[0]) for f in bfaces}
         pbl = np.zeros(nf, dtype=object)
         for k, f in enumerate(bfaces):
             if is_dir_b[k]:
-                pbl[f] = ax[0] * fc[0, f] + ax[1] * fc[1, f] + b0
+                pbl[f] = ax[0] * fc[0, f] + ax[1] * fc[1, f] + ax[2] * fc[2, f] + b0
             else:
                 pbl[f] = exact[f] * sgn[int(f)]          # Neumann datum: outward flux
         for f in range(nf):
@@ -253,6 +301,10 @@ def replay_case(case):
         g = pp.CartGrid([2, 2], [2.0 * dx, 2.0 * dy])
     else:
         g = pp.StructuredTriangleGrid([1, 1], [1.0, 1.0])
+    tilt = shard.get("tilt")
+    Rf = np.array([[float(x) for x in row] for row in TILT[tilt]]) if tilt else np.eye(3)
+    if tilt:
+        g.nodes = Rf @ g.nodes
     g.compute_geometry()
     nc, nf = g.num_cells, g.num_faces
     periodic = None
@@ -265,7 +317,7 @@ def replay_case(case):
     kxx = np.broadcast_to(np.array(case["kxx"], dtype=float), (nc,)).copy()
     kyy = np.broadcast_to(np.array(case["kyy"], dtype=float), (nc,)).copy()
     kxy = np.broadcast_to(np.array(case["kxy"], dtype=float), (nc,)).copy()
-    K = pp.SecondOrderTensor(kxx) if g.dim == 1 else pp.SecondOrderTensor(kxx, kyy=kyy, kxy=kxy)
+    K = pp.SecondOrderTensor(kxx) if (g.dim == 1 or ktype == "iso") else pp.SecondOrderTensor(kxx, kyy=kyy, kxy=kxy)
     data = pp.initialize_data(g, {}, "flow", {"second_order_tensor": K, "bc": bc})
     pp.Tpfa("flow").discretize(g, data)
     md = data[pp.DISCRETIZATION_MATRICES]["flow"]
@@ -286,25 +338,27 @@ def replay_case(case):
     pb[bfaces[is_dir_b]] = 1.7
     if np.abs(flux @ np.full(nc, 1.7) + bflux @ pb).max() > 1e-9 * sc:
         return True, "constant pressure produces a flux"
-    if ktype in ("diag", "const"):
+    if ktype in ("diag", "const", "iso"):
         off = A - np.diag(np.diag(A))
         if off.max() > 1e-12 * sc:
             return True, f"positive off-diagonal entry in the K-orthogonal case: {A.tolist()}"
         for i in range(nc):
             if np.abs(A[i]).max() > 0 and A[i, i] <= 0:
                 return True, "non-positive diagonal"
-    if ktype == "const" and topo != "tri2":
+    if ktype in ("const", "iso") and topo != "tri2":
         a = np.array(case["a"], dtype=float)
         b0 = float(case["b"])
-        if g.dim == 1:
-            a = np.array([a[0], 0.0])
-        p_c = a[0] * g.cell_centers[0] + a[1] * g.cell_centers[1] + b0
-        Ka = np.array([kxx[0] * a[0], (kyy[0] if g.dim == 2 else kxx[0]) * a[1]])
-        exact = -(Ka[0] * g.face_normals[0] + Ka[1] * g.face_normals[1])
+        a3 = np.array([a[0], a[1] if g.dim == 2 else 0.0, 0.0])
+        Ka = np.array([kxx[0] * a3[0], (kyy[0] if g.dim == 2 else kxx[0]) * a3[1], 0.0])
+        if tilt:
+            a3 = Rf @ a3
+            Ka = kxx[0] * a3
+        p_c = a3 @ g.cell_centers + b0
+        exact = -(Ka @ g.face_normals)
         pbl = np.zeros(nf)
         for k, f in enumerate(bfaces):
             sgn = g.cell_faces[f].data[0]
-            pbl[f] = (a[0] * g.face_centers[0, f] + a[1] * g.face_centers[1, f] + b0) if is_dir_b[k] else exact[f] * sgn
+            pbl[f] = (a3 @ g.face_centers[:, f] + b0) if is_dir_b[k] else exact[f] * sgn
         got = flux @ p_c + bflux @ pbl
         if np.abs(got - exact).max() > 1e-8 * (1 + np.abs(exact).max()):
             return True, f"linear pressure: TPFA flux {got.tolist()} != exact Darcy flux {exact.tolist()}"
